@@ -334,7 +334,7 @@ func runPipeScenario(r *rand.Rand, kr *keyring, w *ndWriter, idx int) {
 				if r.Intn(3) == 0 {
 					otherConnection(kr, ch1rec) // the process serves other connections between this connection's calls
 				}
-				n, err := conn.Read(buf)
+				n, err := guarded(w, "Read", func() (int, error) { return conn.Read(buf) })
 				got = append(got, buf[:n]...)
 				cmp := bytes.Clone(got)
 				if len(cmp) >= 3 { // record-layer version of the first record may be normalised
@@ -393,7 +393,7 @@ func runPipeScenario(r *rand.Rand, kr *keyring, w *ndWriter, idx int) {
 				}
 				// like io.CopyBuffer: the chunk lives in a buffer the caller reuses as soon as Write has returned
 				chunk := append([]byte{}, bstream[wpos:wpos+k]...)
-				n, err := conn.Write(chunk)
+				n, err := guarded(w, "Write", func() (int, error) { return conn.Write(chunk) })
 				for i := range chunk {
 					chunk[i] = 0xA5
 				}
@@ -417,6 +417,30 @@ func runPipeScenario(r *rand.Rand, kr *keyring, w *ndWriter, idx int) {
 		w.Write(Ev{"e": "crash", "msg": crash})
 	}
 	w.Write(Ev{"e": "end"})
+}
+
+// guarded runs one call on the Conn under a real-time watchdog: the transports of this driver never block, so a call that
+// does not come back is spinning or deadlocked. It cannot be stopped from outside: the finding is recorded and the driver ends.
+func guarded(w *ndWriter, what string, f func() (int, error)) (int, error) {
+	type res struct {
+		n   int
+		err error
+	}
+	ch := make(chan res, 1)
+	go func() {
+		n, err := f()
+		ch <- res{n, err}
+	}()
+	select {
+	case r := <-ch:
+		return r.n, r.err
+	case <-time.After(watchdogLimit()):
+		w.Write(Ev{"e": "crash", "msg": fmt.Sprintf("Conn.%s does not return (%v on a transport that never blocks: spinning or deadlocked)", what, watchdogLimit())})
+		w.Write(Ev{"e": "end"})
+		w.Close()
+		os.Exit(0)
+	}
+	return 0, nil
 }
 
 func TestPipeScenarios(t *testing.T) {
